@@ -16,8 +16,17 @@ class CountingFile:
         self.delivered = []
         self.closed = False
 
+    jitter = 0.0        # seconds to yield after a seek (set by C17 after a fault: a reader thread that outlived its failed call and still
+                        # moves this handle then gets between the next call's seek and its read)
+
     def seek(self, pos, whence=0):
         self.pos = pos if whence == 0 else (self.pos + pos if whence == 1 else len(self.data) + pos)
+        if self.jitter:
+            import time
+            mine = self.pos
+            time.sleep(self.jitter)
+            if self.pos != mine:
+                self.moved_by_others = getattr(self, 'moved_by_others', 0) + 1
         return self.pos
 
     def tell(self):
